@@ -71,7 +71,7 @@ def build_instance(case, oracle, order, probe="interior", opts=None, with_T=True
     inputs = F.inputs()
     if (opts or {}).get("_components"):
         # the presentation the Einstein Toolkit reader produces: every tensor handed over by its scalar components
-        inputs = to_components(inputs)
+        inputs = to_components(inputs, sparse=(opts["_components"] == "sparse"))
     for k, v in inputs.items():
         rel.data[k] = v
     if with_T and oracle is not None and not (opts or {}).get("_noT"):
@@ -87,7 +87,8 @@ def build_instance(case, oracle, order, probe="interior", opts=None, with_T=True
     return rel, idx, F
 
 
-def to_components(inputs):
+def to_components(inputs, sparse=False):
+    """sparse: a shift (or its time derivative) component that vanishes identically is not handed over at all (it is the default)."""
     out = {}
     ax = "xyz"
     for k, v in inputs.items():
@@ -96,7 +97,7 @@ def to_components(inputs):
         elif k == "Kdown3":
             out.update({"k" + ax[i] + ax[j]: v[i, j] for i in range(3) for j in range(i, 3)})
         elif k in ("betaup3", "dtbetaup3"):
-            out.update({k[:-3] + ax[i]: v[i] for i in range(3)})
+            out.update({k[:-3] + ax[i]: v[i] for i in range(3) if not (sparse and not np.any(v[i]))})
         else:
             out[k] = v
     return out
